@@ -25,6 +25,8 @@ type Ctx struct {
 	cacheNF    []nfPath
 	cacheNFL   *readerLayout
 	ownerMap   map[string]string
+	callersOf  map[string]map[string]bool
+	notHelper  map[string]bool
 	fb         foldBounds
 	pwCache    map[*ssa.Parameter]string
 }
